@@ -7,6 +7,9 @@ Decided (structural necessary conditions in cp_apr.py; thin by nature, see "Not 
           aggregation sized by the mode's extent), so empty slices get 0 and not the buffer's initial fill
   OBJ     in all three solvers the reported objective is tt_loglikelihood(data, M) computed AFTER the final
           M.normalize(sort=True, normtype=1), M is not written afterwards, and M is the model returned
+  LL      in the log-likelihood evaluators the entries that contribute x*log(m) are selected by the DATA (stored nonzeros of
+          sparse data, a mask / per-entry test on the data values), never by the model: the convention 0*log(m) = 0 is keyed
+          on x = 0, so a model that is zero where a count is positive yields -inf and is not silently dropped
   TRACE   every per-iteration diagnostic array is written at [iteration] and reported as [: iteration + 1]
           (one entry per outer iteration performed)
   KKT     KKT violations are maxima of absolute values (non-negative by construction)
@@ -249,10 +252,120 @@ def phi_cover(prog: Program, res: Result) -> None:
 def check(prog: Program, res: Result, tier: str) -> None:
     res.explanation = __doc__.split("\n\n", 1)[1]
     res.assumptions = ["ktensor.normalize only re-parameterises (C08); tt_loglikelihood evaluates the Poisson log-likelihood of its arguments"]
-    res.floors = {"PROJ": 2, "OBJ": 3, "TRACE": 12, "KKT": 3, "LOOP": 5, "START": 4, "PHI": 1}
+    res.floors = {"PROJ": 2, "OBJ": 3, "TRACE": 12, "KKT": 3, "LOOP": 5, "START": 4, "PHI": 1, "LL": 4}
     proj(prog, res)
     phi_cover(prog, res)
     obj_order(prog, res)
+    ll_mask(prog, res)
     trace(prog, res)
     kkt(prog, res)
     start(prog, res)
+
+
+# ------------------------------------------------------------------ LL: which entries contribute x*log(m)
+def _provenance(fn: ast.FunctionDef) -> Dict[str, set]:
+    """name -> parameters it (transitively) depends on; flow-insensitive over all assignments of the function."""
+    params = [a.arg for a in fn.args.args + fn.args.kwonlyargs]
+    prov: Dict[str, set] = {p: {p} for p in params}
+    defs = []
+    for n in ast.walk(fn):
+        if isinstance(n, ast.Assign):
+            for t in n.targets:
+                for x in ast.walk(t):
+                    if isinstance(x, ast.Name) and isinstance(x.ctx, ast.Store):
+                        defs.append((x.id, n.value))
+        elif isinstance(n, ast.AugAssign) and isinstance(n.target, ast.Name):
+            defs.append((n.target.id, n.value))
+        elif isinstance(n, ast.For):
+            for x in ast.walk(n.target):
+                if isinstance(x, ast.Name):
+                    defs.append((x.id, n.iter))
+    changed = True
+    while changed:
+        changed = False
+        for name, val in defs:
+            if name in params:
+                continue
+            src = set()
+            for x in ast.walk(val):
+                if isinstance(x, ast.Name) and isinstance(x.ctx, ast.Load):
+                    src |= prov.get(x.id, set())
+            if not src <= prov.get(name, set()):
+                prov.setdefault(name, set()).update(src)
+                changed = True
+    return prov
+
+
+def ll_mask(prog: Program, res: Result) -> None:
+    for short in ("cp_apr.tt_loglikelihood", "cp_apr.tt_loglikelihood_row"):
+        fi = prog.func(short)
+        fn = fi.node
+        prov = _provenance(fn)
+        params = [a.arg for a in fn.args.args]
+        data_side = {p for p in params if "data" in p.lower()}
+        flags = {p for p in params if p.lower().startswith("is")}
+        model_side = set(params) - data_side - flags
+        parents = {}
+        for x in ast.walk(fn):
+            for c in ast.iter_child_nodes(x):
+                parents[id(c)] = x
+
+        def deps(e) -> set:
+            out = set()
+            for x in ast.walk(e):
+                if isinstance(x, ast.Name) and isinstance(x.ctx, ast.Load):
+                    out |= prov.get(x.id, set())
+            return out
+
+        logs = [c for c in ast.walk(fn) if isinstance(c, ast.Call) and (dotted(c.func) or "").split(".")[-1] in ("log", "log1p", "log2", "log10")]
+        logs.sort(key=lambda c: (c.lineno, c.col_offset))
+        if not logs:
+            res.undecided("LL", short, "entries contributing x*log(m) are selected by the data", prog.loc(fi), "no log term found")
+            continue
+        for k, lg in enumerate(logs):
+            # the statement holding the log term, and the enclosing tests
+            selectors = []      # (text, deps, node)
+            sparse_branch = False
+            cur = lg
+            stmt = None
+            while id(cur) in parents:
+                par = parents[id(cur)]
+                if stmt is None and isinstance(cur, ast.stmt):
+                    stmt = cur
+                if isinstance(par, ast.If) and cur is not par.test:
+                    t = par.test
+                    txt = ast.unparse(t)
+                    in_body = any(cur is b for b in par.body)
+                    if "sptensor" in txt or (deps(t) and deps(t) <= flags):
+                        # representation switch: stored nonzeros are the selection in the sparse branch
+                        positive = in_body
+                        if isinstance(t, ast.UnaryOp) and isinstance(t.op, ast.Not):
+                            positive = not positive
+                        sparse_branch = sparse_branch or positive
+                    elif any(isinstance(x, ast.Subscript) for x in ast.walk(t)):
+                        selectors.append((txt, deps(t), t))
+                cur = par
+            # masks / index selections applied inside the term
+            scope = stmt if stmt is not None else lg
+            for x in ast.walk(scope):
+                if isinstance(x, ast.Subscript):
+                    for sl in (x.slice.elts if isinstance(x.slice, ast.Tuple) else [x.slice]):
+                        if isinstance(sl, ast.Slice):
+                            continue
+                        d = deps(sl)
+                        if d:
+                            selectors.append((ast.unparse(sl), d, sl))
+            branch = "sparse" if sparse_branch else "dense"
+            desc = f"{branch} branch: the entries contributing x*log(m) are selected by the data, not by the model (log term #{k + 1})"
+            by_model = [s_ for s_ in selectors if s_[1] & model_side]
+            if by_model:
+                res.bad("LL", short, desc, prog.loc(fi, by_model[0][2]),
+                        f"the selection `{by_model[0][0][:60]}` depends on the model ({', '.join(sorted(by_model[0][1] & model_side))}): entries where the "
+                        "model is zero but the count is positive are dropped instead of yielding -inf, so the reported objective is finite "
+                        "where the Poisson log-likelihood is not")
+            elif selectors and all(s_[1] <= data_side | flags for s_ in selectors):
+                res.ok("LL", short, desc, prog.loc(fi, lg), f"selected by {sorted({a for s_ in selectors for a in s_[1]})}")
+            elif sparse_branch and not selectors:
+                res.ok("LL", short, desc, prog.loc(fi, lg), "all stored nonzeros of the sparse data")
+            else:
+                res.undecided("LL", short, desc, prog.loc(fi, lg), "no data-keyed selection recognised")
